@@ -8,10 +8,16 @@
     mul             cfg dbg|rel a b -> x | P
     widening_mul    cfg a b   -> (lo,hi)      (unsigned cfg only)
     carrying_mul    cfg a b c -> (lo,hi)      (unsigned cfg only)
+    mulop           cfg dbg|rel form a b -> x | P     form = vv vr rv rr (`a * b`, `a * &b`, `&a * b`,
+                                                      `&a * &b`), as asr (`a *= b`, `a *= &b`)
+    mul_words       cfg b c a0,a1,…  -> ([lo0,lo1,…],carry)   (unsigned cfg only) the chaining loop
+                                        `(lo_i, carry) = a_i.carrying_mul(b, carry)` over k ≥ 0 words
 -/
 import Bnum.Drive.Util
 import Bnum.Model.Mul
 import Bnum.Spec.Mul
+import Bnum.Model.Ops
+import Bnum.Model.C02Extra
 namespace Bnum.Drive.C02
 open Bnum Bnum.Drive
 
@@ -24,6 +30,24 @@ private def showWide (c : Cfg) (p : List Nat × List Nat) : String :=
 private def spWide (p : Nat × Nat) : String := "(" ++ toHex p.1 ++ "," ++ toHex p.2 ++ ")"
 private def parseMode (s : String) : Option Bool :=
   if s = "dbg" then some true else if s = "rel" then some false else none
+
+private def parseList (c : Cfg) (s : String) : Option (List (List Nat)) :=
+  if s = "-" then some [] else (s.splitOn ",").mapM (parseVal c)
+private def showList (xs : List String) : String :=
+  "[" ++ ",".intercalate xs ++ "]"
+/-- exact words of `z` in base `m`: `k` low words and what is left (reduced mod `m` to be printable;
+    the remainder is `< m` whenever `z < m^(k+1)`, which holds for `a·b + c`, `a < m^k`, `b, c < m`) -/
+private def specWords (m : Nat) : Nat → Nat → List Nat × Nat
+  | 0, z => ([], z % m)
+  | k + 1, z => let r := specWords m k (z / m); (z % m :: r.1, r.2)
+private def natWords (m : Nat) : List Nat → Nat
+  | [] => 0
+  | x :: xs => x + m * natWords m xs
+private def opForm (f : String) : Option (Ops.Ty → Bool → List Nat → List Nat → Outcome (List Nat)) :=
+  match f with
+  | "vv" => some Ops.mul_vv | "vr" => some Ops.mul_vr | "rv" => some Ops.mul_rv
+  | "rr" => some Ops.mul_rr | "as" => some Ops.mulAssign | "asr" => some Ops.mulAssignRef
+  | _ => none
 
 def handle : Handler := fun c op args =>
   let w := c.w
@@ -70,6 +94,21 @@ def handle : Handler := fun c op args =>
     let a ← parseVal c a; let b ← parseVal c b; let ci ← parseVal c ci
     some (showWide c (UI.carryingMul w a b ci),
       spWide (Spec.widening (m c) (U w a * U w b + U w ci)))
+  | "mulop", [mode, form, a, b] => do
+    let dbg ← parseMode mode
+    let f ← opForm form
+    let a ← parseVal c a; let b ← parseVal c b
+    let z := valOf c a * valOf c b
+    let T := if sg then Ops.bint w c.n else Ops.buint w c.n
+    some (showOut (showVal c) (f T dbg a b),
+      if dbg then spStrict (Spec.strict sg (m c) z) else toHex (wrapU (m c) z))
+  | "mul_words", [b, ci, ws] =>
+    if sg then none else do
+    let b ← parseVal c b; let ci ← parseVal c ci; let ws ← parseList c ws
+    let r := UI.mulWords w ws b ci
+    let sp := specWords (m c) ws.length (natWords (m c) (ws.map (U w)) * U w b + U w ci)
+    some ("(" ++ showList (r.1.map (showVal c)) ++ "," ++ showVal c r.2 ++ ")",
+          "(" ++ showList (sp.1.map toHex) ++ "," ++ toHex sp.2 ++ ")")
   | _, _ => none
 
 end Bnum.Drive.C02
